@@ -489,9 +489,14 @@ def main(chk: Check):
     # ---- Coq
     a_bad = []
     if ok:
-        r = chk.coq_eval("query", IMPORTS, "str", cases,
-                         ["mismatches (run_case pool) cases", "mismatches (run_case_orig pool) cases",
-                          "where_ (fun i r => negb (spec_case_ok pool i r)) cases"], shard=450, preamble=pool_def)
+        import concurrent.futures as cf
+        with cf.ThreadPoolExecutor(max_workers=2) as ex:      # the two streams evaluate concurrently
+            fq = ex.submit(chk.coq_eval, "query", IMPORTS, "str", cases,
+                           ["mismatches (run_case pool) cases", "mismatches (run_case_orig pool) cases",
+                            "where_ (fun i r => negb (spec_case_ok pool i r)) cases"], 450, pool_def)
+            fg = ex.submit(chk.coq_eval, "glob", IMPORTS, "str * str", gl_cases,
+                           ["mismatches run_glob cases", "where_ (fun i r => negb (spec_glob_ok i r)) cases"], 600)
+            r, rg = fq.result(), fg.result()
         if r is not None:
             fixed_bad, orig_bad, spec_bad = (set(x) for x in r)
             for i in sorted(fixed_bad):
@@ -504,9 +509,7 @@ def main(chk: Check):
                 if not any(b.get("text") == t for b in prop_bad):
                     prop_bad.append({"what": "Spec_C44.describes disagrees with what parse_match(text) selects",
                                      "text": t, "implementation": cases[i][1].term[:400]})
-        lap("coq-query")
-        r = chk.coq_eval("glob", IMPORTS, "str * str", gl_cases,
-                         ["mismatches run_glob cases", "where_ (fun i r => negb (spec_glob_ok i r)) cases"])
+        r = rg
         if r is not None:
             for i in r[1]:
                 gl_bad.append({"what": "compiled glob regex differs from Spec_C44.glob_match",
@@ -517,7 +520,7 @@ def main(chk: Check):
                                "input": gl_cases[i][0], "implementation": gl_cases[i][1]},
                               no_input=not (gl_bad or prop_bad))
 
-    lap("coq-glob")
+    lap("coq")
     # ---- report
     reported = 0
     for b in prop_bad:
